@@ -333,7 +333,10 @@ func ReadLength(reader Asn1Reader) (*Length, error) {
 	if (lengthOrSizeOfLength & 0x80) == 0 {
 		length.SetUint64(uint64(lengthOrSizeOfLength))
 	} else {
-		sizeOfLength = int(lengthOrSizeOfLength & 0x0F)
+		sizeOfLength, err = sizeOfLongFormLength(lengthOrSizeOfLength)
+		if err != nil {
+			return nil, err
+		}
 		length, err = ReadExpectedBigInt(reader, sizeOfLength)
 		if err != nil {
 			return nil, err
@@ -356,7 +359,10 @@ func PeekLength(reader Asn1Reader, offset int) (*Length, error) {
 		length.SetUint64(uint64(lengthOrSizeOfLength))
 	} else {
 		offset += 1
-		sizeOfLength = int(lengthOrSizeOfLength & 0x0F)
+		sizeOfLength, err = sizeOfLongFormLength(lengthOrSizeOfLength)
+		if err != nil {
+			return nil, err
+		}
 		length, err = PeekExpectedBigInt(reader, sizeOfLength, offset)
 		if err != nil {
 			return nil, err
@@ -366,6 +372,16 @@ func PeekLength(reader Asn1Reader, offset int) (*Length, error) {
 	return &Length{
 		Length: *length, LengthSize: sizeOfLength,
 	}, nil
+}
+
+// sizeOfLongFormLength returns the number of length octets announced by the first octet of a long form length.
+// The low seven bits are the count (X.690 8.1.3.5): all of them are significant, 0x80 (indefinite) is not DER.
+func sizeOfLongFormLength(firstLengthOctet uint8) (int, error) {
+	sizeOfLength := int(firstLengthOctet & 0x7F)
+	if sizeOfLength == 0 || sizeOfLength > 8 {
+		return 0, fmt.Errorf("unsupported length encoding, first length octet: %#x", firstLengthOctet)
+	}
+	return sizeOfLength, nil
 }
 
 func ReadExpectedBigInt(reader Asn1Reader, sizeOfLength int) (*big.Int, error) {
